@@ -105,8 +105,13 @@ BUILTIN = {
     ("function", "none", "none"): ("sys", "addaudithook"),
     ("attribute",): ("errno", "EPERM"),
 }
-CASE_KEYS = ["part", "origin", "kind", "host", "mname", "doc", "cwdrel", "bases", "deco", "pann", "pdef", "pdoc", "ret", "val", "ann",
+CASE_KEYS = ["dfield", "part", "origin", "kind", "host", "mname", "doc", "cwdrel", "bases", "deco", "pann", "pdef", "pdoc", "ret", "val", "ann",
              "where", "alno", "resolved", "slot", "spine", "leaf", "section"]
+
+
+def patched(case: dict) -> bool:
+    """Whether the harness edits the loaded tree through the API (a parameter docstring no agent produces)."""
+    return bool(case.get("pdoc")) and case.get("host") != "dataclass"
 
 
 def case_id(case: dict) -> dict:
@@ -158,6 +163,10 @@ def focus_lines(case: dict, ind: str, pkg: str) -> list:
         deco = slot_src if slot == "class.decorator" else alt_src(case["deco"]) if part != "expr" else None
         lines = ([f"{ind}@{deco}"] if deco else []) + [f"{ind}class {name}" + (f"({bases})" if bases else "") + ":"]
         return lines + (_docline(doc, ind + "    ") or [f"{ind}    pass"])
+    if kind == "function" and case["host"] == "dataclass":
+        # the focus is the __init__ synthesised from this field
+        fld = {"plain": "0", "kw_true": "field(default=0, kw_only=True)", "kw_expr": "field(default=0, kw_only=MISSING)"}[case["dfield"]]
+        return [f"{ind}f: Aa = {fld}"] + (_docline("F doc.", ind) if case["pdoc"] else [])
     if kind == "function":
         if part == "expr":
             deco = slot_src if slot == "function.decorator" else None
@@ -192,6 +201,13 @@ def focus_lines(case: dict, ind: str, pkg: str) -> list:
     if kind == "alias":
         if inspected:
             return [f"{ind}from os.path import join as {name}"]
+        how = case["alno"]
+        if how == "span":      # a multi-line import statement: the alias spans several lines
+            return [f"{ind}from {pkg}._t import (", f"{ind}    thing as {name},", f"{ind})"]
+        if how == "wild":      # expansion of a wildcard import
+            return [f"{ind}from {pkg}._t import *"]
+        if how == "over":      # ... that overwrites a member defined above it
+            return [f"{ind}{name} = 0", f"{ind}from {pkg}._t import *"]
         return [f"{ind}from {pkg}._t import thing as {name}"]
     raise ValueError(kind)
 
@@ -240,7 +256,11 @@ def layout(case: dict, idx: int, lean: bool = False) -> dict:
         files[f"{pkg}/{case['mname']}.py"] = "\n".join(_docline(doc_text(case), "")) + "\n"
         names = [case["mname"]]
     elif kind != "root":
-        if case["host"] == "class":
+        if case["host"] == "dataclass":
+            body += ["from dataclasses import MISSING, dataclass, field", "@dataclass", "class H:"]
+            body += focus_lines(case, "    ", pkg)
+            names = ["H", "__init__"]
+        elif case["host"] == "class":
             body.append("class H:")
             body += focus_lines(case, "    ", pkg)
             names = ["H", case["mname"]]
@@ -249,7 +269,7 @@ def layout(case: dict, idx: int, lean: bool = False) -> dict:
             names = [case["mname"]]
     files[f"{pkg}/__init__.py"] = "\n".join(body) + "\n"
     if kind == "alias" and origin == "static":
-        files[f"{pkg}/_t.py"] = "thing = 1\n"
+        files[f"{pkg}/_t.py"] = f"thing = 1\n{case['mname']} = 1\n" if case["alno"] in ("wild", "over") else "thing = 1\n"
     return {"files": files, "pkg": pkg, "opts": opts, "real_names": names, "model_names": names, "prune": origin != "static"}
 
 
@@ -267,6 +287,10 @@ def alpha(v, key=None):
         return {"t": "number"}
     if isinstance(v, str):
         return {"t": "string", "v": v} if key in ("kind", "cls") else {"t": "string"}
+    if isinstance(v, dict) and v.get("kind") == "alias" and isinstance(v.get("lineno"), int) and isinstance(v.get("endlineno"), int) \
+            and v["endlineno"] > v["lineno"]:
+        # Serde!JIntAfter: the end line of a multi-line import
+        return {"t": "object", "f": {k: ({"t": "integer", "v": "after"} if k == "endlineno" else alpha(x, k)) for k, x in v.items()}}
     if isinstance(v, list):
         if key == "parsed":
             items = []
@@ -543,7 +567,7 @@ def evaluate(case: dict, idx: int, base: str, schema: dict | None = None, want_c
         loader, root = _load(griffe, lay, work)
         objs = _chain(root, lay["real_names"])
         focus = objs[-1]
-        if case.get("pdoc") is True:
+        if patched(case):
             focus.parameters["p"].docstring = griffe.Docstring("P doc.", lineno=1, endlineno=1)
         if lay["prune"]:
             _prune(objs)
@@ -594,7 +618,7 @@ def evaluate(case: dict, idx: int, base: str, schema: dict | None = None, want_c
                         same[form + "_diff"] = f"re-encoding raised {type(exc).__name__}: {exc}"[:200]
                 res["same"] = same
             # ---- the dump() function emits exactly this serialisation ----------------------------------
-            if want_dump and case["origin"] != "inspect_src" and not case.get("pdoc") and not lay["prune"]:
+            if want_dump and case["origin"] != "inspect_src" and not patched(case) and not lay["prune"]:
                 res["dump"] = _dump_check(griffe, lay, work, root, enc)
 
         if want_c09 and schema is not None:
@@ -606,7 +630,7 @@ def evaluate(case: dict, idx: int, base: str, schema: dict | None = None, want_c
                 chain_doc = prune_json(doc, lay["real_names"], lay["real_names"])
                 sch["errors_chain"] = sorted(cs.real_errors(chain_doc, schema))
                 # the same package as a user would dump it: nothing pruned or patched, aliases resolved or not
-                untouched = not lay["prune"] and not case.get("pdoc") and not case.get("resolved")
+                untouched = not lay["prune"] and not patched(case) and not case.get("resolved")
                 whole_text = None
                 for resolve in (False, True):
                     key = "whole_resolved" if resolve else "whole"
@@ -627,7 +651,7 @@ def evaluate(case: dict, idx: int, base: str, schema: dict | None = None, want_c
                             sch[key] = sch["errors_chain"] if d2 == chain_doc else sorted(cs.real_errors(d2, schema))
                             if resolve:
                                 sch["keys_same_resolved"] = alpha(prune_json(d2, lay["real_names"], lay["model_names"])) == enc["full"]["alpha"] \
-                                    or bool(case.get("pdoc")) or lay["prune"]
+                                    or patched(case) or lay["prune"]
                         if not resolve:
                             whole_text = text2
                     except Exception as exc:  # noqa: BLE001
